@@ -202,6 +202,12 @@ func routeBuilder(ws *restful.WebService, r rm.RouteDecl, lg *Log, longhand bool
 	}
 	rb.To(func(req *restful.Request, resp *restful.Response) {
 		inv := Invocation{ID: id, SelPath: req.SelectedRoutePath(), Params: h.CopyMap(req.PathParameters())}
+		// the single-value accessor must agree with the map
+		for k, v := range req.PathParameters() {
+			if one := req.PathParameter(k); one != v {
+				inv.Params["PathParameter("+k+") disagrees with PathParameters()"] = one
+			}
+		}
 		if sr := req.SelectedRoute(); sr != nil {
 			inv.SelMethod, inv.SelRPath = sr.Method(), sr.Path()
 		}
